@@ -543,6 +543,11 @@ func (r *Run) causeFor(upseid uint64, cause string) string {
 	if t, ok := r.Taints[upseid]; ok {
 		return "after:" + t
 	}
+	if upseid == 0 && r.sharedTaint != "" {
+		// a tainted session had a valid request rejected: what that request
+		// half-did to objects shared between sessions belongs to its trigger
+		return "after:" + r.sharedTaint
+	}
 	if upseid == 0 && len(r.Taints) > 0 {
 		// a discrepancy about an object shared between sessions, in a run in
 		// which some session met a known-finding trigger: attribute it to the
@@ -555,6 +560,13 @@ func (r *Run) causeFor(upseid uint64, cause string) string {
 		return "after:" + ts[0]
 	}
 	return cause
+}
+
+// RejectedValid records that a valid request for the session was rejected.
+func (r *Run) RejectedValid(upseid uint64) {
+	if t, ok := r.Taints[upseid]; ok && r.sharedTaint == "" {
+		r.sharedTaint = t
+	}
 }
 
 func (r *Run) Taint(upseid uint64, trigger string) {
